@@ -82,6 +82,26 @@ Definition res_eqb {A} (eqb : A -> A -> bool) (a b : res A) : bool :=
 Definition ffmt_of (tbl : list (Z * str)) (b : Z) : str :=
   match find (fun p => fst p =? b) tbl with Some p => snd p | None => [] end.
 
+(* the struct <-> object clause: attribute names in positional order, Get per attribute, and the instance
+   constructed from those values (one argument per attribute) converted back into the Go type of the case.
+   A single Hash argument goes to the named-argument creator, which the model does not describe: not compared. *)
+Definition obj_check (tbl : list (Z * str)) (t : gty) (v : gval) (o : objobs) : bool :=
+  match (match t, v with
+         | GStruct n fs, GVStruct vs => Some (false, n, fs, vs)
+         | GPtr (GStruct n fs), GVPtr (Some (GVStruct vs)) => Some (true, n, fs, vs)
+         | _, _ => None
+         end) with
+  | Some (a, n, fs, vs) =>
+      let gets := obj_gets (ffmt_of tbl) a fs vs in
+      str_eqb_list (oo_attrs o) (obj_attr_names fs) &&
+      list_eqb value_eqb (oo_gets o) gets &&
+      match gets with
+      | [VHash _] => true
+      | _ => res_eqb gval_eqb (oo_newp o) (rbind (obj_new n fs gets) (reflect_to t))
+      end
+  | None => false
+  end.
+
 Definition c18_check (tbl : list (Z * str)) (c : rcase) : bool :=
   let t := c_ty c in let v := c_val c in
   let w := wrap (ffmt_of tbl) t v in
@@ -97,7 +117,8 @@ Definition c18_check (tbl : list (Z * str)) (c : rcase) : bool :=
       | Some ob => res_eqb gval_eqb ob back
       | None => false
       end &&
-      Bool.eqb deep (match back with Ok b => gval_eqb v b | _ => false end)
+      Bool.eqb deep (match back with Ok b => gval_eqb v b | _ => false end) &&
+      match obj with Some o => obj_check tbl t v o | None => true end
   end.
 
 Definition c18_mismatches (tbl : list (Z * str)) (cs : list rcase) : list N := failing (c18_check tbl) cs.
